@@ -21,7 +21,7 @@ LogBuffer& operator<<(LogBuffer& l, const Prologue&) { abort(); return l; }
 void LogFormatter::put_integer(ALogBuffer&, uint64_t) { abort(); }
 
 static const long INFSZ = 1000000;          // how SIZE_MAX is logged
-static bool g_tight = false;                // --tight: iovec arrays exact-size, empty views are {nullptr, 0}
+static bool g_tight = false;                // --tight: iovec arrays are exact-size heap blocks too (an empty view points at a 0-byte block)
 
 // ------------------------------------------------------------------ buffer registry
 struct Buf { int id; char* p; size_t len; bool aux; bool by_alloc; bool hidden; };
@@ -75,7 +75,7 @@ struct IovArr {
     iovec* base = nullptr; iovec* first = nullptr; size_t n = 0;
     void make(size_t cnt) {              // default: one spare slot after the end (see --tight)
         n = cnt;
-        if (g_tight) { base = cnt ? (iovec*)calloc(cnt, sizeof(iovec)) : nullptr; first = base; }
+        if (g_tight) { base = (iovec*)calloc(cnt, sizeof(iovec)); first = base; }
         else { base = (iovec*)calloc(cnt + 1, sizeof(iovec)); first = base; }
     }
     ~IovArr() { free(base); }
@@ -96,7 +96,7 @@ struct Subject {
 static void make_view(Subject& s, const std::vector<int>& lens) {
     s.own = false; s.arr.make(lens.size());
     for (size_t i = 0; i < lens.size(); i++) { Buf& b = new_buf(lens[i], false, false); s.arr.first[i] = {b.p, (size_t)lens[i]}; }
-    s.view = (g_tight && lens.empty()) ? iovector_view() : iovector_view(s.arr.first, (int)lens.size());
+    s.view = iovector_view(s.arr.first, (int)lens.size());
 }
 static void make_own(Subject& s, const std::vector<int>& lens, int ff, int bf, size_t amax, bool heap) {
     s.own = true; s.heap = heap; s.amax = amax; g_al = {amax, 0, false};
@@ -108,8 +108,6 @@ static void make_own(Subject& s, const std::vector<int>& lens, int ff, int bf, s
 // ------------------------------------------------------------------ operations
 struct Op { std::string op; long n = 0, off = 0, N = 0; std::vector<int> lens; char wk = 'v'; };
 
-template <class V> struct is_own { static const bool value = false; };
-template <> struct is_own<iovector> { static const bool value = true; };
 static size_t shrinklt(iovector_view& v, size_t n) { return v.shrink_less_than(n); }
 static size_t shrinklt(iovector&, size_t) { abort(); }
 static ssize_t xv(iovector_view&, bool, size_t, iovector*) { abort(); }
@@ -166,7 +164,7 @@ static void exec(Subject& s, V& v, const Op& o, int k) {
     if (vv) {
         warr.make(o.lens.size());
         for (size_t i = 0; i < o.lens.size(); i++) { Buf& b = new_buf(o.lens[i], false, false); warr.first[i] = {b.p, (size_t)o.lens[i]}; }
-        wview = (g_tight && o.lens.empty()) ? iovector_view() : iovector_view(warr.first, (int)o.lens.size());
+        wview = iovector_view(warr.first, (int)o.lens.size());
         wpre = refs(warr.first, o.lens.size());
         if (o.wk == 'o') { wown = new IOVector(); for (size_t i = 0; i < o.lens.size(); i++) wown->push_back(warr.first[i]); }
     }
@@ -255,7 +253,7 @@ static void make(Subject& s, const Cfg& c, const std::vector<int>& lens) {
     if (c.own) make_own(s, lens, c.ff, c.bf, c.amax, c.heap); else make_view(s, lens);
 }
 // the calls of IOVector.tla: Choices(s, 0)
-static void choices(bool own, long T, long cnt, const std::vector<std::vector<int>>& others, std::vector<Op>& out, bool f13last) {
+static void choices(bool own, long T, long cnt, const std::vector<std::vector<int>>& others, std::vector<Op>& out) {
     auto add = [&](const char* op, long n, long off, long N, const std::vector<int>* l, char wk) {
         Op o; o.op = op; o.n = n; o.off = off; o.N = N; if (l) o.lens = *l; o.wk = wk; out.push_back(o); };
     add("sum", 0, 0, 0, nullptr, 'v');
@@ -271,12 +269,14 @@ static void choices(bool own, long T, long cnt, const std::vector<std::vector<in
         add("popf", 0, 0, 0, nullptr, 'v'); add("popb", 0, 0, 0, nullptr, 'v');
     }
     // the operations that construct an iov_iterator come last (in --tight mode the first of them on an empty view may be fatal)
-    (void)f13last;
+    static const std::vector<std::vector<int>> few = {{}, {2}, {1, 0, 2}};     // other operand as an iovector: thin wrappers
     for (const char* op : {"mtob", "mfromb"}) for (long n = 0; n <= T + 2; n++) add(op, n, 0, 0, nullptr, 'v');
-    for (const char* op : {"mtov", "mfromv", "ptov", "pfromv"}) for (auto& l : others) for (char wk : {'v', 'o'}) {
+    for (const char* op : {"mtov", "mfromv", "ptov", "pfromv"}) for (char wk : {'v', 'o'}) {
         if (wk == 'o' && !own) continue;
-        for (long n = 0; n <= T + 1; n++) add(op, n, 0, 0, &l, wk);
-        add(op, INFSZ, 0, 0, &l, wk);
+        for (auto& l : (wk == 'o' ? few : others)) {
+            for (long n = 0; n <= T + 1; n++) add(op, n, 0, 0, &l, wk);
+            add(op, INFSZ, 0, 0, &l, wk);
+        }
     }
 }
 
@@ -291,14 +291,33 @@ int main(int argc, char** argv) {
     shapes(maxel, maxlen, sh); shapes(oel, olen, others);
     // the configurations of IOVector.tla (view; new_iovector with the OwnCfgs) and the stack class IOVector<32,4>
     std::vector<Cfg> cfgs = {{false, 0, 0, 0, false}};
-    if (!g_tight) { cfgs.push_back({true, 1, 2, 1000, true}); cfgs.push_back({true, 0, 1, 2, true}); cfgs.push_back({true, 1, 3, 2, true});
-                    cfgs.push_back({true, 4, 0, 1000, false}); }
+    if (!g_tight) { cfgs.push_back({true, 1, 2, 1000, true}); cfgs.push_back({true, 0, 1, 2, true});
+                    if (thorough) { cfgs.push_back({true, 1, 3, 2, true}); cfgs.push_back({true, 4, 0, 1000, false}); } }
     // 1. exhaustive scope: every call on every vector, each on a fresh vector
-    for (auto& c : cfgs) for (auto& l : sh) {
-        long T = 0; for (int x : l) T += x;
-        std::vector<Op> ops; choices(c.own, T, (long)l.size(), others, ops, g_tight);
-        if (g_tight) std::stable_partition(ops.begin(), ops.end(), [](const Op& o) { return o.op[0] != 'm' && o.op != "ptov" && o.op != "pfromv"; });
-        for (auto& o : ops) { reset_registry(); Subject s; make(s, c, l); g_case++; run(s, o, 0); }
+    if (!g_tight) {
+        for (auto& c : cfgs) for (auto& l : sh) {
+            long T = 0; for (int x : l) T += x;
+            std::vector<Op> ops; choices(c.own, T, (long)l.size(), others, ops);
+            for (auto& o : ops) { reset_registry(); Subject s; make(s, c, l); g_case++; run(s, o, 0); }
+        }
+    } else {
+        // exact-size iovec arrays: a sanitizer report ends the run, so the calls that construct an iov_iterator over an
+        // empty view (which reads iov[0]) are executed after everything else
+        struct Item { int prio; const std::vector<int>* l; Op o; };
+        std::vector<std::vector<int>> tothers = {{}, {0}, {1}, {2}, {1, 0, 2}};
+        std::vector<Item> items;
+        for (auto& l : sh) {
+            long T = 0; for (int x : l) T += x;
+            std::vector<Op> ops; choices(false, T, (long)l.size(), tothers, ops);
+            for (auto& o : ops) {
+                bool fam = o.op[0] == 'm' || o.op == "ptov" || o.op == "pfromv";
+                bool e0 = l.empty(), w0 = o.lens.empty();
+                bool empty_it = (o.op == "mtob" || o.op == "mfromb" || o.op == "pfromv") ? e0 : (o.op == "ptov") ? w0 : (e0 || w0);
+                items.push_back({!fam ? 0 : !empty_it ? 1 : 2, &l, o});
+            }
+        }
+        std::stable_sort(items.begin(), items.end(), [](const Item& a, const Item& b) { return a.prio < b.prio; });
+        for (auto& it : items) { reset_registry(); Subject s; make(s, cfgs[0], *it.l); g_case++; run(s, it.o, 0); }
     }
     if (g_tight) { reset_registry(); vt::close(); return 0; }
     // 2. seeded random sequences of up to 8 calls on larger vectors
